@@ -7,7 +7,6 @@ import (
 	"net/url"
 	"reflect"
 	"strconv"
-	"strings"
 	"time"
 
 	xsd "git.sr.ht/~mariusor/go-xsd-duration"
@@ -323,7 +322,11 @@ func asIRI(val *fastjson.Value) (IRI, bool) {
 	if val == nil {
 		return NilIRI, true
 	}
-	s := strings.Trim(val.String(), `"`)
+	if val.Type() != fastjson.TypeString {
+		return EmptyIRI, false
+	}
+	// the decoded text of the string, not its JSON form (which still carries the escapes)
+	s := string(val.GetStringBytes())
 	u, err := url.ParseRequestURI(s)
 	if err == nil && len(u.Scheme) > 0 && len(u.Host) > 0 {
 		// try to see if it's an IRI
